@@ -262,10 +262,12 @@ func storageWaterBalance(rainfallTS, petTS, inflowTS, demandTS, targetMinimumVol
 						// return
 					}
 				}
-				rainfallVolForTimestep += rainfallPerSecond * avgArea * subtimestep
-				evaporationVolForTimestep += petPerSecond * avgArea * subtimestep
 				subtimestep = math.Max(subtimestep*0.5,MIN_TIMESTEP_SECONDS_NEGATIVE)
 			}
+
+			// accumulate the atmospheric exchange of the ACCEPTED sub-step, in m^3 (rainfall/pet are in mm)
+			rainfallVolForTimestep += rainfallPerSecond * units.MILLIMETRES_TO_METRES * avgArea * subtimestep
+			evaporationVolForTimestep += petPerSecond * units.MILLIMETRES_TO_METRES * avgArea * subtimestep
 
 			outflowVolume += avgOutflow * subtimestep
 			// testVol = volume + (inflow+(netAtmosphericFluxDepthPerSecond*avgArea)-avgOutflow) * subtimestep
